@@ -6,8 +6,9 @@
 -/
 import ScionTime.Gen.Leaf
 import ScionTime.Model.Time64
+import ScionTime.Proofs.GoPrelude
 namespace ScionTime.LeafTie
-open ScionTime.Gen.Leaf
+open ScionTime ScionTime.Gen.Leaf ScionTime.GoLemmas
 
 /-- view of a generated `S_Time64` as the model's timestamp -/
 def t64 (x : S_Time64) : Time64.T64 := { sec := x.Seconds.toNat, frac := x.Fraction.toNat }
@@ -29,5 +30,101 @@ theorem C04_leaf_Time64_After (a b : S_Time64) :
   rw [Bool.eq_iff_iff]
   simp only [beq_iff_eq, Int.natCast_inj]
   exact UInt32.toNat_inj.symm
+
+
+/-! ### The two conversions themselves (second-generation leaves)
+
+`ntp.Time64FromTime` and `ntp.TimeFromTime64` as regenerated from the Go source — over Go's
+wrapping `int64`/`uint32` arithmetic, with `time.Time` operations from Model/GoPrelude.lean — are
+the integer models `Time64.ofTime` / `Time64.toTime` that every C04 theorem is about, for every
+instant whose Unix seconds lie within ±2^62 (encode) resp. ±2^61 (decode; year ±7·10^10). The
+range hypothesis only excludes wrap-around of the int64 seconds arithmetic. -/
+
+theorem C04_leaf_Time64FromTime (t : Int)
+    (h : -4611686018427387904 ≤ t / 1000000000 ∧ t / 1000000000 < 4611686018427387904) :
+    t64 (ntp_Time64FromTime t) = Time64.ofTime t := by
+  unfold ntp_Time64FromTime t64 Time64.ofTime Time64.unixSec Time64.nanosecond Time64.epoch Time64.era Time64.nsPerSec
+  simp only [Time64.T64.mk.injEq]
+  constructor
+  · rw [toNat_narrow32]
+    have hu : (Go.Time.unix t).toInt = t / 1000000000 := by
+      unfold Go.Time.unix; apply toInt_ofInt_of_fits <;> omega
+    have hc : (-2208988800 : Int64).toInt = -2208988800 := by decide
+    rw [toInt_sub_of_fits _ _ (by rw [hu, hc]; omega) (by rw [hu, hc]; omega), hu, hc]
+    rfl
+  · rw [toNat_narrow32]
+    have hns0 := Int.emod_nonneg t (show (1000000000 : Int) ≠ 0 by omega)
+    have hns1 := Int.emod_lt_of_pos t (show (0 : Int) < 1000000000 by omega)
+    have hn : (Go.Time.nanosecond t).toInt = t % 1000000000 := by
+      unfold Go.Time.nanosecond; apply toInt_ofInt_of_fits <;> omega
+    have hs : (Go.shl64 (Go.Time.nanosecond t) 32).toInt = t % 1000000000 * 4294967296 := by
+      rw [toInt_shl64_32 _ (by omega) (by omega), hn]
+    have hc : (1000000000 : Int64).toInt = 1000000000 := by decide
+    rw [toInt_div_pos _ _ (by rw [hc]; omega), hs, hc, Int.tdiv_eq_ediv_of_nonneg (by omega)]
+    have : t % 1000000000 * 4294967296 / 1000000000 < 4294967296 := by omega
+    have : 0 ≤ t % 1000000000 * 4294967296 / 1000000000 := by omega
+    omega
+
+/-- premises satisfiable: 10 s after the 2036 era rollover -/
+example : -4611686018427387904 ≤ (2085978506000000000 : Int) / 1000000000 ∧
+    (2085978506000000000 : Int) / 1000000000 < 4611686018427387904 := by omega
+
+theorem C04_leaf_TimeFromTime64 (x : S_Time64) (t0 : Int)
+    (h : -2305843009213693952 ≤ t0 / 1000000000 ∧ t0 / 1000000000 < 2305843009213693952) :
+    ntp_TimeFromTime64 x t0 = Time64.toTime (t64 x) t0 := by
+  have hS0 : (0 : Int) ≤ x.Seconds.toNat := by omega
+  have hS1 : (x.Seconds.toNat : Int) < 4294967296 := by have := x.Seconds.toBitVec.isLt; have : x.Seconds.toNat = x.Seconds.toBitVec.toNat := rfl; omega
+  have hF0 : (0 : Int) ≤ x.Fraction.toNat := by omega
+  have hF1 : (x.Fraction.toNat : Int) < 4294967296 := by have := x.Fraction.toBitVec.isLt; have : x.Fraction.toNat = x.Fraction.toBitVec.toNat := rfl; omega
+  have hu : (Go.Time.unix t0).toInt = t0 / 1000000000 := by
+    unfold Go.Time.unix; apply toInt_ofInt_of_fits <;> omega
+  have hE : (-2208988800 : Int64).toInt = -2208988800 := by decide
+  have hR : (4294967296 : Int64).toInt = 4294967296 := by decide
+  have h2 : (2 : Int64).toInt = 2 := by decide
+  have hG : (1000000000 : Int64).toInt = 1000000000 := by decide
+  -- names for the integer values
+  generalize htr : t0 / 1000000000 = tr at *
+  have hq := tdiv_bounds (tr + 2208988800)
+  generalize hqd : (tr + 2208988800).tdiv 4294967296 = q at *
+  have h_a : (Go.Time.unix t0 - (-2208988800 : Int64)).toInt = tr + 2208988800 := by
+    rw [toInt_sub_of_fits _ _ (by rw [hu, hE]; omega) (by rw [hu, hE]; omega), hu, hE]; omega
+  have h_b : ((Go.Time.unix t0 - (-2208988800 : Int64)) / (4294967296 : Int64)).toInt = q := by
+    rw [toInt_div_pos _ _ (by rw [hR]; omega), h_a, hR, hqd]
+  have h_c : (((Go.Time.unix t0 - (-2208988800 : Int64)) / (4294967296 : Int64)) * (4294967296 : Int64)).toInt = q * 4294967296 := by
+    rw [toInt_mul_of_fits _ _ (by rw [h_b, hR]; omega) (by rw [h_b, hR]; omega), h_b, hR]
+  have h_d : ((-2208988800 : Int64) + (((Go.Time.unix t0 - (-2208988800 : Int64)) / (4294967296 : Int64)) * (4294967296 : Int64))).toInt = -2208988800 + q * 4294967296 := by
+    rw [toInt_add_of_fits _ _ (by rw [h_c, hE]; omega) (by rw [h_c, hE]; omega), h_c, hE]
+  have h_s : (x.Seconds.toUInt64.toInt64).toInt = x.Seconds.toNat := toInt_widen32 _
+  have h_f : (x.Fraction.toUInt64.toInt64).toInt = x.Fraction.toNat := toInt_widen32 _
+  have h_e : (((-2208988800 : Int64) + (((Go.Time.unix t0 - (-2208988800 : Int64)) / (4294967296 : Int64)) * (4294967296 : Int64))) + x.Seconds.toUInt64.toInt64).toInt
+      = -2208988800 + q * 4294967296 + x.Seconds.toNat := by
+    rw [toInt_add_of_fits _ _ (by rw [h_d, h_s]; omega) (by rw [h_d, h_s]; omega), h_d, h_s]
+  have h_half : ((4294967296 : Int64) / (2 : Int64)).toInt = 2147483648 := by decide
+  have h_lo : (Go.Time.unix t0 - (4294967296 : Int64) / (2 : Int64)).toInt = tr - 2147483648 := by
+    rw [toInt_sub_of_fits _ _ (by rw [hu, h_half]; omega) (by rw [hu, h_half]; omega), hu, h_half]
+  have h_hi : (Go.Time.unix t0 + (4294967296 : Int64) / (2 : Int64)).toInt = tr + 2147483648 := by
+    rw [toInt_add_of_fits _ _ (by rw [hu, h_half]; omega) (by rw [hu, h_half]; omega), hu, h_half]
+  have h_ns : (Go.shr64 (x.Fraction.toUInt64.toInt64 * (1000000000 : Int64)) 32).toInt = (x.Fraction.toNat : Int) * 1000000000 / 4294967296 := by
+    rw [toInt_shr64_32, toInt_mul_of_fits _ _ (by rw [h_f, hG]; omega) (by rw [h_f, hG]; omega), h_f, hG]
+  unfold ntp_TimeFromTime64 Time64.toTime Time64.mkTime Time64.decSec Time64.decNs Time64.unixSec t64 Go.unixTime
+  simp only [Time64.epoch, Time64.era, Time64.nsPerSec, htr]
+  rw [h_ns]
+  have e1 : tr - -2208988800 = tr + 2208988800 := by omega
+  rw [e1, hqd]
+  generalize (-2208988800 + (Go.Time.unix t0 - -2208988800) / 4294967296 * 4294967296 + x.Seconds.toUInt64.toInt64 : Int64) = A at *
+  generalize (Go.Time.unix t0 - 4294967296 / 2 : Int64) = B at *
+  generalize (Go.Time.unix t0 + 4294967296 / 2 : Int64) = C at *
+  have hAb : -4611686018427387904 ≤ A.toInt ∧ A.toInt ≤ 4611686018427387904 := by rw [h_e]; omega
+  have hAp : ∀ R : Int64, R.toInt = 4294967296 → (A + R).toInt = A.toInt + 4294967296 := by
+    intro R hR'; rw [toInt_add_of_fits _ _ (by omega) (by omega), hR']
+  have hAm : ∀ R : Int64, R.toInt = 4294967296 → (A - R).toInt = A.toInt - 4294967296 := by
+    intro R hR'; rw [toInt_sub_of_fits _ _ (by omega) (by omega), hR']
+  have e2 : (4294967296 : Int) / 2 = 2147483648 := by omega
+  rw [e2, ← h_e, ← h_lo, ← h_hi, ite3_toInt, hAp _ hR, hAm _ hR]
+
+/-- premises satisfiable, and the generated decoder unfolds into the previous era there
+    (reference 10 s after the rollover, timestamp 5 s before it). -/
+example : -2305843009213693952 ≤ (2085978506000000000 : Int) / 1000000000 ∧
+    (2085978506000000000 : Int) / 1000000000 < 2305843009213693952 := by omega
 
 end ScionTime.LeafTie
